@@ -5,6 +5,12 @@
 #include "nitro_opt.h"
 #include "kf_gen.h"
 #include "enf_gen.h"
+/* Specification expressions in this file dereference only pointers that the preconditions made valid (is_fresh / r_ok);
+ * pointer checks are switched off for the SPEC TEXT (never for the extracted code) because they dominated symbolic execution. */
+#pragma CPROVER check push
+#pragma CPROVER check disable "pointer"
+#pragma CPROVER check disable "pointer-overflow"
+#pragma CPROVER check disable "bounds"
 #define NITRO_UNIT_GLOBALS NITRO_OPT_GLOBALS
 #define NITRO_HAVOC_UNIT NITRO_OPT_HAVOC
 #define O_OBJ(p) __CPROVER_is_fresh(p, sizeof(*(p)))
@@ -137,8 +143,8 @@ __CPROVER_ensures(__CPROVER_return_value ==> (g->next == __CPROVER_old(g->next) 
 __CPROVER_ensures(!__CPROVER_return_value ==> g->next == __CPROVER_old(g->next));
 #undef NITRO_UNIT_GLOBALS
 #undef NITRO_HAVOC_UNIT
-#define NITRO_UNIT_GLOBALS NITRO_OPT_GLOBALS struct ostr g_env_value; size_t g_env_name, g_pieces_total, g_piece_w_id;
-#define NITRO_HAVOC_UNIT NITRO_OPT_HAVOC g_env_value.id = nondet_size_t(); g_env_value.len = nondet_size_t(); g_env_name = nondet_size_t(); g_pieces_total = nondet_size_t(); g_piece_w_id = nondet_size_t();
+#define NITRO_UNIT_GLOBALS NITRO_OPT_GLOBALS size_t g_oi; struct ostr g_env_value; size_t g_env_name, g_pieces_total, g_piece_w_id;
+#define NITRO_HAVOC_UNIT NITRO_OPT_HAVOC g_oi = nondet_size_t(); g_env_value.id = nondet_size_t(); g_env_value.len = nondet_size_t(); g_env_name = nondet_size_t(); g_pieces_total = nondet_size_t(); g_piece_w_id = nondet_size_t();
 
 #define BASE_WF_V(b) (LETTERS_WF && (b).short_.len <= 1 && ((b).short_.len == 1 ==> LETTER_SLOT((b).short_.b0) < NITRO_NL))   /* short name: one character, and one of the table letters */
 /* how often the letter of option b occurs in token a */
@@ -307,4 +313,110 @@ size_t multi_count(const struct omulti *self)
 __CPROVER_requires(nitro_exc == 0 && O_OBJ(self))
 __CPROVER_assigns()
 __CPROVER_ensures(__CPROVER_return_value == self->value_.count);
+
+/* ======================= layer 3: the parser ======================= */
+#ifndef NITRO_K
+#define NITRO_K 2          /* declarations per kind (bound, DESIGN.md 4.1); the arrays hold them in key order */
+#endif
+struct oparser { struct ooption opts[NITRO_K]; size_t n_opts; struct omulti mopts[NITRO_K]; size_t n_mopts; struct otoggle toggles[NITRO_K]; size_t n_toggles;
+                 size_t allowed_positionals_; nbool greedy_positionals_; };
+/* std::set<std::string> of one-character short names: membership per table letter */
+struct oletters { nbool has[NITRO_NL]; };
+static inline void oletters_init(struct oletters *s) { s->has[0] = 0; s->has[1] = 0; s->has[2] = 0; s->has[3] = 0; }
+static inline nbool oletters_emplace(struct oletters *s, const struct ostr *k)    /* emplace(k).second */
+{ size_t j = LETTER_SLOT(k->b0); if (j >= NITRO_NL) return nondet_nbool(); if (s->has[j]) return 0; s->has[j] = 1; return 1; }
+static inline size_t ui_short_total(const struct user_input *u) { struct omset l; ui_as_short_list(&l, u); return l.total; }    /* as_short_list().size() */
+#define T_NLETTERS(a) (T_NAMELEN(a) - 1)
+#define T_BUNDLE(a) (T_SHORT(a) && T_NLETTERS(a) > 1)
+extern size_t g_oi;   /* witness index of a declared option / multi-option / toggle */
+
+/* ---- try_parse_as_option (two instantiations) ----
+ * the token *it either names none of the given options (false, nothing changes), or names one: then a bundle is rejected,
+ * the value is the text after '=' or else the NEXT token, which must exist and be a value token and is consumed. */
+/* the harness allocates typed objects (an untyped is_fresh block of several hundred bytes made the encoding explode) */
+#define TPO_TOKENS_PRE(fn) (__CPROVER_rw_ok(it_ref, sizeof(*it_ref)) && __CPROVER_same_object(*it_ref, end) && *it_ref < end && \
+   __CPROVER_r_ok(*it_ref, sizeof(struct user_input)) && (*it_ref + 1 == end || __CPROVER_r_ok(*it_ref + 1, sizeof(struct user_input))) && \
+   UI_WF(*it_ref) && (*it_ref + 1 != end ==> UI_WF(*it_ref + 1)) && (*it_ref)->arg_.len < (1 << 20))
+#define TPO_OPTS_PRE(fn, T) (n_options <= NITRO_K && __CPROVER_rw_ok(options, NITRO_K * sizeof(T)) && \
+   (n_options > 0 ==> BASE_WF_V(options[0].b)) && (n_options > 1 ==> BASE_WF_V(options[1].b)))
+#define TOK0 (__CPROVER_old(*it_ref))
+#define TOK (&TOK0->arg_)
+#define NXT (&(TOK0 + 1)->arg_)
+#define TPO_M0 (n_options > 0 && M_BASE(&options[0].b, TOK))
+#define TPO_M1 (n_options > 1 && !TPO_M0 && M_BASE(&options[1].b, TOK))
+#define TPO_MATCH (TPO_M0 || TPO_M1)
+#define TPO_NEXT_OK (TOK0 + 1 != end && T_VALUE(NXT))
+#define TPO_VALUE_ID (T_HAS_VALUE(TOK) ? VALUE_ID_OF(TOK) : NXT->id)
+#define TPO_CAN (!T_BUNDLE(TOK) && (T_HAS_VALUE(TOK) || TPO_NEXT_OK))
+#define TPO_ADVANCE (*it_ref == TOK0 + (T_HAS_VALUE(TOK) ? 0 : 1))
+#define OPT_SAME(j) (options[j].value_has == __CPROVER_old(options[j].value_has) && options[j].value_.id == __CPROVER_old(options[j].value_.id) && options[j].b.dirty_ == __CPROVER_old(options[j].b.dirty_))
+#define OPT_SET(j) (options[j].value_has && options[j].b.dirty_ && options[j].value_.id == TPO_VALUE_ID)
+nbool tpo_option(struct ooption *options, size_t n_options, const struct user_input **it_ref, const struct user_input *end)
+__CPROVER_requires(nitro_exc == 0 && TPO_OPTS_PRE(tpo_option, struct ooption) && TPO_TOKENS_PRE(tpo_option))
+__CPROVER_assigns(nitro_exc, *it_ref, g_at_next, g_at_hits, g_at_other, __CPROVER_object_whole(options))
+__CPROVER_ensures(nitro_exc == 0 || nitro_exc == EXC_PARSING_ERROR)
+__CPROVER_ensures(!TPO_MATCH ==> (nitro_exc == 0 && !__CPROVER_return_value && *it_ref == TOK0))                           /*@ unknown_name_is_not_consumed */
+__CPROVER_ensures((TPO_MATCH && T_BUNDLE(TOK)) ==> nitro_exc != 0)                                                        /*@ option_letter_inside_a_bundle_is_rejected */
+__CPROVER_ensures((TPO_MATCH && !T_BUNDLE(TOK) && !T_HAS_VALUE(TOK) && !TPO_NEXT_OK) ==> nitro_exc != 0)                  /*@ value_missing_is_rejected */
+__CPROVER_ensures((TPO_CAN && ((TPO_M0 && __CPROVER_old(options[0].value_has)) || (TPO_M1 && __CPROVER_old(options[1].value_has)))) ==> nitro_exc != 0)   /*@ single_valued_option_given_twice_is_rejected */
+__CPROVER_ensures((TPO_CAN && TPO_M0 && !__CPROVER_old(options[0].value_has)) ==> (nitro_exc == 0 && __CPROVER_return_value && OPT_SET(0) && TPO_ADVANCE))   /*@ option_gets_its_value_and_consumes_exactly_that_token */
+__CPROVER_ensures((TPO_CAN && TPO_M1 && !__CPROVER_old(options[1].value_has)) ==> (nitro_exc == 0 && __CPROVER_return_value && OPT_SET(1) && TPO_ADVANCE))
+__CPROVER_ensures((n_options > 0 && !TPO_M0) ==> OPT_SAME(0))                                                             /*@ other_options_untouched */
+__CPROVER_ensures((n_options > 1 && !TPO_M1) ==> OPT_SAME(1))
+__CPROVER_ensures(nitro_exc == 0 ==> (__CPROVER_return_value == TPO_MATCH));
+
+#define MOPT_SAME(j) (options[j].value_.count == __CPROVER_old(options[j].value_.count) && options[j].value_.w_id == __CPROVER_old(options[j].value_.w_id) && options[j].b.dirty_ == __CPROVER_old(options[j].b.dirty_))
+#define MOPT_PUSHED(j) (options[j].b.dirty_ && options[j].value_.count == __CPROVER_old(options[j].value_.count) + 1 && \
+      (__CPROVER_old(options[j].value_.count) == g_w ==> options[j].value_.w_id == TPO_VALUE_ID) && (__CPROVER_old(options[j].value_.count) != g_w ==> options[j].value_.w_id == __CPROVER_old(options[j].value_.w_id)))
+nbool tpo_multi(struct omulti *options, size_t n_options, const struct user_input **it_ref, const struct user_input *end)
+__CPROVER_requires(nitro_exc == 0 && TPO_OPTS_PRE(tpo_multi, struct omulti) && TPO_TOKENS_PRE(tpo_multi))
+__CPROVER_requires((n_options > 0 ==> options[0].value_.count < OSTR_MAXLEN) && (n_options > 1 ==> options[1].value_.count < OSTR_MAXLEN))
+__CPROVER_assigns(nitro_exc, *it_ref, g_at_next, g_at_hits, g_at_other, __CPROVER_object_whole(options))
+__CPROVER_ensures(nitro_exc == 0 || nitro_exc == EXC_PARSING_ERROR)
+__CPROVER_ensures(!TPO_MATCH ==> (nitro_exc == 0 && !__CPROVER_return_value && *it_ref == TOK0))                           /*@ unknown_name_is_not_consumed */
+__CPROVER_ensures((TPO_MATCH && T_BUNDLE(TOK)) ==> nitro_exc != 0)                                                        /*@ option_letter_inside_a_bundle_is_rejected */
+__CPROVER_ensures((TPO_MATCH && !T_BUNDLE(TOK) && !T_HAS_VALUE(TOK) && !TPO_NEXT_OK) ==> nitro_exc != 0)                  /*@ value_missing_is_rejected */
+__CPROVER_ensures((TPO_CAN && TPO_M0) ==> (nitro_exc == 0 && __CPROVER_return_value && MOPT_PUSHED(0) && TPO_ADVANCE))      /*@ value_appended_in_command_line_order */
+__CPROVER_ensures((TPO_CAN && TPO_M1) ==> (nitro_exc == 0 && __CPROVER_return_value && MOPT_PUSHED(1) && TPO_ADVANCE))
+__CPROVER_ensures((n_options > 0 && !TPO_M0) ==> MOPT_SAME(0))                                                            /*@ other_options_untouched */
+__CPROVER_ensures((n_options > 1 && !TPO_M1) ==> MOPT_SAME(1))
+__CPROVER_ensures(nitro_exc == 0 ==> (__CPROVER_return_value == TPO_MATCH));
+
+/* ---- try_parse_as_toggle ---- */
+#define TG(k) (&self->toggles[k])
+#define IN (&in->arg_)
+#define TGM(k) (self->n_toggles > (k) && M_TOGGLE(TG(k), IN))
+#define TG_LETTERS (((self->n_toggles > 0 && M_LETTER(&TG(0)->b, IN)) ? LCOUNT(&TG(0)->b, IN) : 0) + ((self->n_toggles > 1 && M_LETTER(&TG(1)->b, IN)) ? LCOUNT(&TG(1)->b, IN) : 0))
+/* the declared toggles are unambiguous: distinct names, distinct letters (what check_parser_consistency and the declaration functions guarantee) */
+#define TOGGLES_DISTINCT (self->n_toggles < 2 || (TG(0)->b.name_.id != TG(1)->b.name_.id && (TG(0)->b.short_.len == 0 || TG(1)->b.short_.len == 0 || TG(0)->b.short_.b0 != TG(1)->b.short_.b0)))
+#define TG_RANGE(k) (self->n_toggles <= (k) || (BASE_WF_V(TG(k)->b) && TG(k)->given_ >= 0 && TG(k)->given_ < (1 << 30) && TOGGLE_KF_PRE(TG(k), IN)))
+#define TG_SAME(k) (TG(k)->given_ == __CPROVER_old(TG(k)->given_) && TG(k)->b.dirty_ == __CPROVER_old(TG(k)->b.dirty_))
+#define TG_POS(k) TOGGLE_POSITIVE(TG(k), IN)
+#define TG_CONFLICT(k) (TGM(k) && ((!TG_POS(k) && (!TG(k)->reversable_ || (__CPROVER_old(TG(k)->b.dirty_) && __CPROVER_old(TG(k)->given_) > 0))) || (TG_POS(k) && __CPROVER_old(TG(k)->b.dirty_) && __CPROVER_old(TG(k)->given_) == 0)))
+#define TG_UPDATED(k) (TG(k)->b.dirty_ && TG(k)->given_ == (TG_POS(k) ? __CPROVER_old(TG(k)->given_) + (T_SHORT(IN) ? (int)LCOUNT(&TG(k)->b, IN) : 1) : 0))
+nbool try_parse_as_toggle(struct oparser *self, const struct user_input *in)
+__CPROVER_requires(nitro_exc == 0 && O_OBJ_OR_OK(try_parse_as_toggle, self) && O_OBJ_OR_ROK(try_parse_as_toggle, in) && UI_WF(in) && in->arg_.len < (1 << 20))
+__CPROVER_requires(self->n_toggles <= NITRO_K && TG_RANGE(0) && TG_RANGE(1) && TOGGLES_DISTINCT && g_oi < NITRO_K)
+__CPROVER_assigns(nitro_exc, g_at_next, g_at_hits, g_at_other, self->toggles)
+__CPROVER_ensures(nitro_exc == 0 || nitro_exc == EXC_PARSING_ERROR)
+__CPROVER_ensures((!TGM(0) && !TGM(1)) ==> (nitro_exc == 0 && !__CPROVER_return_value))                                        /*@ token_that_is_no_toggle_is_not_consumed */
+__CPROVER_ensures(((TGM(0) || TGM(1)) && T_HAS_VALUE(IN)) ==> nitro_exc != 0)                                                 /*@ value_on_a_toggle_is_rejected */
+__CPROVER_ensures(((TGM(0) || TGM(1)) && T_SHORT(IN) && TG_LETTERS != T_NLETTERS(IN)) ==> nitro_exc != 0)                      /*@ bundle_with_a_letter_that_is_no_toggle_is_rejected */
+__CPROVER_ensures((TG_CONFLICT(0) || TG_CONFLICT(1)) ==> nitro_exc != 0)                                                      /*@ both_polarities_or_irreversible_no-_are_rejected */
+__CPROVER_ensures(nitro_exc == 0 ==> (__CPROVER_return_value == (TGM(0) || TGM(1))))
+__CPROVER_ensures((nitro_exc == 0 && TGM(0)) ==> TG_UPDATED(0))                                                              /*@ every_matching_toggle_is_counted */
+__CPROVER_ensures((nitro_exc == 0 && TGM(1)) ==> TG_UPDATED(1))
+__CPROVER_ensures((nitro_exc == 0 && __CPROVER_return_value && T_SHORT(IN)) ==> TG_LETTERS == T_NLETTERS(IN))                 /*@ every_letter_of_a_bundle_is_a_declared_toggle */
+__CPROVER_ensures((self->n_toggles > 0 && !TGM(0)) ==> TG_SAME(0))                                                           /*@ other_toggles_untouched */
+__CPROVER_ensures((self->n_toggles > 1 && !TGM(1)) ==> TG_SAME(1));
+/* ---- prepare / validate / consistency ---- */
+#define PARSER_PRE(fn) (nitro_exc == 0 && O_OBJ_OR_OK(fn, self) && self->n_opts <= NITRO_K && self->n_mopts <= NITRO_K && self->n_toggles <= NITRO_K && g_oi < NITRO_K)
+void parser_prepare_options(struct oparser *self)
+__CPROVER_requires(PARSER_PRE(parser_prepare_options))
+__CPROVER_assigns(self->opts, self->mopts, self->toggles)
+__CPROVER_ensures(nitro_exc == 0)
+__CPROVER_ensures(g_oi < self->n_opts ==> (!self->opts[g_oi].value_has && !self->opts[g_oi].b.dirty_))                                 /*@ every_option_forgets_the_earlier_parse */
+__CPROVER_ensures(g_oi < self->n_mopts ==> (self->mopts[g_oi].value_.count == 0 && !self->mopts[g_oi].b.dirty_))                      /*@ every_multi_option_forgets_the_earlier_parse */
+__CPROVER_ensures(g_oi < self->n_toggles ==> (self->toggles[g_oi].given_ == 0 && !self->toggles[g_oi].b.dirty_));                     /*@ every_toggle_forgets_the_earlier_parse */
+#pragma CPROVER check pop
 #endif
